@@ -124,9 +124,60 @@ def api_scenarios(R):
     lines += ["open 1 %s" % paths[0], "setfn /var/crash/2026-09-30/an-earlier-dump-file-name-long-enough-to-live-on-the-heap.dump", "setfn -",
               "reopen %s" % variants[2], "attr file.format", "setfn /x/second-name-of-this-context.dump", "reopen %s" % variants[3], "setfn -",
               "reopen %s" % variants[1], "reopen %s" % paths[0], "attr file.format"]
+    # pages whose compressed data does not decompress (LKCD run-length and gzip streams, diskdump zlib): the read fails
+    # with the documented status "corrupt" and a message, whether it is reached directly (MACHPHYSADDR) or through the
+    # translation library (KPHYSADDR); a stream that fills the page exactly is fine
+    from props import c03 as _c03
+    expect = {}
+    ee = bytes([0, 255, 0xee]) * 16                      # 4080 bytes
+    def bad_rle():
+        k = rng.randrange(6)
+        pre = b"".join(bytes([0, rng.randint(1, 255), rng.randint(1, 255)]) for _ in range(rng.randint(0, 12)))
+        if k == 0: return ee + bytes([0, rng.randint(17, 255), 0xdd])                 # run longer than the room left
+        if k == 1: return bytes([rng.randint(1, 255)]) * rng.randint(4097, 4200)      # too many literals
+        if k == 2: return ee + bytes([0, 16])                                         # ends inside the escape
+        if k == 3: return pre + b"\0"                                                 # ends right after the escape byte
+        if k == 4: return pre + bytes([0, 200, 7]) * 30                               # expands far beyond the page
+        return ee + bytes([0, 16, 0xdd])                                              # fills the page exactly: fine
+    for comp, nm in ((1, "rle"), (2, "gzip")):
+        pfns = list(range(8))
+        if comp == 1:
+            streams = {1: ee + bytes([0, 17, 0xdd]), 2: ee + bytes([0, 16, 0xdd]), 3: ee + bytes([0, 16])}
+            for f in (4, 5, 6, 7):
+                streams[f] = bad_rle()
+            verdict = {f: _c03.rle_ref(s, 4096) for f, s in streams.items()}
+            bad = {f for f, v in verdict.items() if v[0] == "err" or len(v[1]) != 4096}
+        else:
+            import zlib
+            z = zlib.compress(dumpgen.page_bytes(1, 4096))
+            streams = {1: b"\x78\x9c" + bytes(rng.randrange(256) for _ in range(40)), 3: z[:len(z) // 2], 4: zlib.compress(b"A" * 5000),
+                       5: zlib.compress(b"B" * 100), 6: bytes(rng.randrange(256) for _ in range(rng.randint(1, 64)))}
+            bad = set(streams)
+        q = R.path("c16-lkcd-%s" % nm)
+        dumpgen.c03_write_lkcd(q, pfns, compress=comp, streams=streams)
+        lines.append("open 1 %s" % q)
+        for as_ in (1, 0):
+            for f in pfns:
+                if as_: expect[len(lines)] = ("corrupt -" if f in bad else "ok ",
+                                      "LKCD dump (dh_dump_compress=%d), page %d with the compressed stream %s read as %s" % (
+                                          comp, f, streams[f].hex()[:80] if f in streams else "(well-formed)", ("KPHYSADDR", "MACHPHYSADDR")[as_]))
+                lines.append("probe %d %d 4096" % (as_, f * 4096))
+        lines.append("attr file.format")
+    q = R.path("c16-ddbad.dump")
+    dumpgen.write_diskdump_custom(q, [0, 1, 2, 3], {}, max_mapnr=8, methods={1: "zlib-bad", 3: "zlib-bad"})
+    lines.append("open 1 %s" % q)
+    for as_ in (1, 0):
+        for f in range(4):
+            if as_: expect[len(lines)] = ("corrupt -" if f in (1, 3) else "ok ", "diskdump page %d (%s) read as %s" % (
+                f, "flagged zlib, data does not inflate" if f in (1, 3) else "well-formed", ("KPHYSADDR", "MACHPHYSADDR")[as_]))
+            lines.append("probe %d %d 4096" % (as_, f * 4096))
     exe = R.build_harness("s_fmt", ["s_fmt.c"])
     rc, out, err = R.run_harness(exe, stdin_text="\n".join(lines) + "\n")
     obs = kdf.obs(out)
+    for i, (want, what) in sorted(expect.items()):
+        if i < len(obs) and not obs[i].startswith(want) and " C16:" not in obs[i] and "UNDOCUMENTED" not in obs[i]:
+            return lines, ("%s answered '%s', expected status '%s'" % (what, obs[i][:100], want.split()[0]),
+                           "\n".join(lines[max(j for j in range(i + 1) if lines[j].startswith("open ")):i + 1])), len(obs)
     # a failure that crosses from libkdumpfile into libaddrxlat and back: KVADDR read through page tables whose
     # root page is flagged zlib-compressed but does not inflate (every message of the chain exactly once)
     if rc == 0:
@@ -164,7 +215,8 @@ def api_scenarios(R):
             break
         if " C16:" in o or "UNDOCUMENTED" in o:
             # find the command that produced observation i
-            fail = ("public call answered '%s'" % o[:200], "\n".join(lines[max(0, i - 3):i + 1]))
+            fail = ("public call '%s'%s answered '%s'" % (lines[i][:60] if i < len(lines) else "?", " (%s)" % expect[i][1] if i in expect else "", o[:200]),
+                    "\n".join(lines[max(0, i - 3):i + 1]))
             break
     if fail is None and rc != 0:
         k = min(len(obs), len(lines) - 1)
